@@ -44,7 +44,9 @@ RULE = (
     "restriction lengths {16,17,100}, seed {1}, no scale / repeat call (thorough: lengths {16,17,100,1000}, all "
     "seeds, c=0.3). Dense family: a ramp spectrum on a 0..6 Hz grid (energy at and beyond fs/2) x rates "
     "{0.5,0.7,1,2.5,3.3,10} (thorough: +1.28) x EVERY length 8..260 (thorough: 8..520) x components {z,w} "
-    "(thorough: all six, and the 1D spectrum with {z,w}) x seed {1}. On-grid family: a ramp spectrum (1D, and 2D in bin 1 of N=8) "
+    "(thorough: all six, and the 1D spectrum with {z,w}) x seed {1}. Low-energy family: the ramp spectrum (1D on grid B, 2D in bin 1 of N=8) at levels "
+    "{1e-6,1e-9,1e-12} x all rates x lengths {16,17,100,1000} x all components x seed {1} x scale c=1e-3 (all "
+    "checks are relative to the level). On-grid family: a ramp spectrum (1D, and 2D in bin 1 of N=8) "
     "whose frequency grid is bit-identical to the FFT grid of the request, rates x lengths {16,17,100} (thorough: "
     "+101,1000) x all components x seeds {0,1}, each call repeated on the same object. History family: one 1D "
     "and one 2D object, every event sequence of length <= 3 that ends with a generate over {generate(comp, fs, n, "
@@ -72,7 +74,7 @@ REQUIRED_CATEGORIES = [
     "one_horizontal_zero", "beyond_grid_zero_bins", "below_grid_zero_bins", "endpoint_ambiguous",
     "zero_variance_trivial", "seed_pairs_compared", "scaled_series_compared", "same_seed_compared",
     "energy_at_nyquist_excluded", "dense_lengths", "offset_grid_last_bin", "offset_grid_other_bin",
-    "operand_unchanged_checked", "spectrum_on_fft_grid", "histories", "history_generate_after_mutation",
+    "operand_unchanged_checked", "spectrum_on_fft_grid", "low_energy_level", "variance_below_1e-8", "histories", "history_generate_after_mutation",
     "history_same_request_after_mutation",
 ]
 
@@ -123,6 +125,7 @@ def dir_grids(tier):
 # direction grids that do not start at 0 (offset family): 7.5.., a rotated grid stored in wrapped,
 # hence unsorted, form (350, 35, 80, ...), and the -180.. / -170.. conventions
 OFFSET_ORIGINS = [7.5, 350.0, -180.0, -170.0]
+LOW_LEVELS = [1e-6, 1e-9, 1e-12]
 
 
 def offset_grid(origin, n=8):
@@ -182,6 +185,15 @@ def units(tier):
             for kind, extra in (("1d", {"shapes": ["ramp"]}), ("2d", {"dgrid": "N8", "bins": [1]})):
                 u = {"name": f"ongrid:{kind}:fs{rate}:n{n}", "kind": kind, "grid": f"fft(fs={rate},n={n})", "shape": "ramp",
                      "ongrid": n, "fs": rate, "lengths": [n], "seeds": [0, 1], "scales": [], "family": "ongrid", "cost": 1}
+                u.update(extra)
+                us.append(u)
+    # low-energy family: the same ramp spectra at levels 1e-6 .. 1e-12 (every law is relative: no absolute
+    # threshold may decide which bins take part), and a scale factor that moves the level again
+    for rate in fs:
+        for level in LOW_LEVELS:
+            for kind, extra in (("1d", {"shapes": ["ramp"]}), ("2d", {"dgrid": "N8", "bins": [1]})):
+                u = {"name": f"low:{kind}:level{level}:fs{rate}", "kind": kind, "grid": "B", "shape": "ramp", "level": level,
+                     "fs": rate, "lengths": [16, 17, 100, 1000], "seeds": [1], "scales": [1e-3], "family": "low", "cost": 1}
                 u.update(extra)
                 us.append(u)
     # history family: one object, every sequence of <= 3 generate / in-place-mutate events
@@ -274,7 +286,7 @@ def spectra_for(unit):
     if unit["kind"] == "1d":
         f = fgrid_unit
         for sh in unit["shapes"]:
-            e = shape_values(sh, f)
+            e = shape_values(sh, f) * unit.get("level", 1.0)
 
             def build(scale, f=f, e=e, g=unit["grid"]):
                 if g == "B":  # with directional moments, to show that they play no role
@@ -282,12 +294,15 @@ def spectra_for(unit):
                     return make_1d(f, e * scale, a1=h, b1=h, a2=0 * h, b2=0 * h)
                 return make_1d(f, e * scale)
 
-            out.append(({"kind": "1d", "grid": unit["grid"], "shape": sh}, build, f, e, 1.0, None))
+            skey = {"kind": "1d", "grid": unit["grid"], "shape": sh}
+            if "level" in unit:
+                skey["level"] = unit["level"]
+            out.append((skey, build, f, e, 1.0, None))
     else:
         f = fgrid_unit
         d = offset_grid(unit["origin"]) if "origin" in unit else dir_grids(tier)[unit["dgrid"]]
         dname = f"off{unit['origin']}" if "origin" in unit else unit["dgrid"]
-        e = shape_values(unit["shape"], f)
+        e = shape_values(unit["shape"], f) * unit.get("level", 1.0)
         nd = len(d)
         for j in unit["bins"]:
             def build(scale, f=f, e=e, d=d, j=j, nd=nd):
@@ -295,8 +310,10 @@ def spectra_for(unit):
                 e2[:, j] = e * scale
                 return make_2d(f, d, e2)
 
-            out.append(({"kind": "2d", "dgrid": dname, "grid": unit["grid"], "shape": unit["shape"], "bin": j},
-                        build, f, e, 360.0 / nd, float(d[j])))
+            skey = {"kind": "2d", "dgrid": dname, "grid": unit["grid"], "shape": unit["shape"], "bin": j}
+            if "level" in unit:
+                skey["level"] = unit["level"]
+            out.append((skey, build, f, e, 360.0 / nd, float(d[j])))
     return out
 
 
@@ -469,6 +486,10 @@ def run_unit(unit):
                 c.cat("dense_lengths")
             if unit.get("family") == "ongrid":
                 c.cat("spectrum_on_fft_grid")
+            if unit.get("family") == "low":
+                c.cat("low_energy_level")
+                if ref["z"][1] * unit["scales"][0] < 1e-8:
+                    c.cat("variance_below_1e-8")
             if "origin" in unit:
                 c.cat("offset_grid_last_bin" if skey["bin"] == 7 else "offset_grid_other_bin")
             c.cat("endpoint_ambiguous", ref["amb"])
